@@ -7,7 +7,14 @@ package main
 
 import (
 	"bufio"
+	"crypto/ecdsa"
+	"crypto/elliptic"
+	"crypto/rand"
+	"crypto/tls"
+	"crypto/x509"
+	"crypto/x509/pkix"
 	"fmt"
+	"math/big"
 	"net"
 	"strconv"
 	"strings"
@@ -93,8 +100,9 @@ func methodCode(m base.Method) int {
 }
 
 // abstract events (encoding shared with coq/clientsm/Model.v, see dec_event there)
-//   1 status sess auth loc keymsg  dkind [ct sdp base nobase n {ctl back pm0}]  tkind [bad tcp secure deliv sp sp1 sp2 il il1 il2 src dest ports]
-//   2 = OPTIONS request from the server, 3 = other request, 4 = interleaved frame, 5 = close, 6 = stale response
+//
+//	1 status sess auth loc keymsg  dkind [ct sdp base nobase n {ctl back pm0}]  tkind [bad tcp secure deliv sp sp1 sp2 il il1 il2 src dest ports]
+//	2 = OPTIONS request from the server, 3 = other request, 4 = interleaved frame, 5 = close, 6 = stale response
 type absMedia struct{ Ctl, Back, PM0 int }
 type absDesc struct {
 	CT, SDP, Base, NoBase int
@@ -203,6 +211,33 @@ type server struct {
 
 const stormLimit = 60
 
+var (
+	certOnce sync.Once
+	certTLS  tls.Certificate
+	certErr  error
+)
+
+// a throw-away self-signed certificate for the rtsps cases (the client does not verify it)
+func serverCert() (tls.Certificate, error) {
+	certOnce.Do(func() {
+		key, err := ecdsa.GenerateKey(elliptic.P256(), rand.Reader)
+		if err != nil {
+			certErr = err
+			return
+		}
+		tpl := &x509.Certificate{SerialNumber: big.NewInt(1), Subject: pkix.Name{CommonName: "hostile"},
+			NotBefore: time.Now().Add(-time.Hour), NotAfter: time.Now().Add(24 * time.Hour),
+			IPAddresses: []net.IP{net.IPv4(127, 0, 0, 1)}}
+		der, err := x509.CreateCertificate(rand.Reader, tpl, tpl, &key.PublicKey, key)
+		if err != nil {
+			certErr = err
+			return
+		}
+		certTLS = tls.Certificate{Certificate: [][]byte{der}, PrivateKey: key}
+	})
+	return certTLS, certErr
+}
+
 func newServer(cs *Case, onRec func(reqRecord)) (*server, error) {
 	// the sandbox may be short of ephemeral ports (TIME_WAIT of thousands of earlier conversations)
 	var ln net.Listener
@@ -219,6 +254,14 @@ func newServer(cs *Case, onRec func(reqRecord)) (*server, error) {
 	}
 	s := &server{ln: ln, cs: cs, done: make(chan struct{}), lastAct: time.Now(), onRec: onRec}
 	s.port = ln.Addr().(*net.TCPAddr).Port
+	if cs.Cfg.Secure != 0 {
+		cert, err2 := serverCert()
+		if err2 != nil {
+			ln.Close()
+			return nil, err2
+		}
+		s.ln = tls.NewListener(ln, &tls.Config{Certificates: []tls.Certificate{cert}, MinVersion: tls.VersionTLS12})
+	}
 	for i := range s.udp {
 		u, err2 := net.ListenUDP("udp4", &net.UDPAddr{IP: net.IPv4(127, 0, 0, 1)})
 		if err2 != nil {
@@ -282,7 +325,16 @@ func (s *server) run() {
 	}
 }
 
-func (s *server) baseURL() string { return "rtsp://127.0.0.1:" + strconv.Itoa(s.port) + "/stream/" }
+func (s *server) scheme() string {
+	if s.cs.Cfg.Secure != 0 {
+		return "rtsps"
+	}
+	return "rtsp"
+}
+
+func (s *server) baseURL() string {
+	return s.scheme() + "://127.0.0.1:" + strconv.Itoa(s.port) + "/stream/"
+}
 
 func (s *server) sdp(ctl [2]string, sessCtl string, back int, pm0 bool, nmedia int) string {
 	var sb strings.Builder
@@ -290,11 +342,15 @@ func (s *server) sdp(ctl [2]string, sessCtl string, back int, pm0 bool, nmedia i
 	if sessCtl != "" {
 		sb.WriteString("a=control:" + sessCtl + "\r\n")
 	}
+	prof := "RTP/AVP"
+	if s.cs.Cfg.Secure != 0 {
+		prof = "RTP/SAVP"
+	}
 	for i := 0; i < nmedia; i++ {
 		if i == 0 {
-			sb.WriteString("m=video 0 RTP/AVP 96\r\n")
+			sb.WriteString("m=video 0 " + prof + " 96\r\n")
 		} else {
-			sb.WriteString("m=audio 0 RTP/AVP 8\r\n")
+			sb.WriteString("m=audio 0 " + prof + " 8\r\n")
 		}
 		if ctl[i] != "\x00" {
 			sb.WriteString("a=control:" + ctl[i] + "\r\n")
@@ -620,7 +676,7 @@ func (s *server) respond(req *base.Request, act Act) outcome {
 			s.nredir++
 			switch act.B {
 			case 0:
-				rr.add("Location", fmt.Sprintf("rtsp://127.0.0.1:%d/r%d", s.port, s.nredir))
+				rr.add("Location", fmt.Sprintf("%s://127.0.0.1:%d/r%d", s.scheme(), s.port, s.nredir))
 				ab.Loc = 2
 			case 1:
 				// no Location
